@@ -58,7 +58,22 @@ RULE = ("operation sequences (set_field, e[k]=v, pop, del e[k]; then a probe blo
         "(thorough: every changing call followed by every call), eleven scripts around earlier results, "
         "random programs to depth 18 over one to three entries (constructed, sharing Field objects, parsed); what each "
         "argument was relative to the entry and key is read off the objects at run time (tags ident:...); non-trivial = an "
-        "argument coincided with (or equalled) something an entry held")
+        "argument coincided with (or equalled) something an entry held; "
+        "EQUALITY ACROSS THE CLASS HIERARCHY (hier-* streams, props/c19_hier.py): every public model class (Field, Entry, "
+        "String, Preamble, ExplicitComment, ImplicitComment, ParsingFailedBlock, MiddlewareErrorBlock, DuplicateBlockKeyBlock, "
+        "DuplicateFieldKeyBlock; Library when the tree gives it an __eq__) - constructed, parsed with and without the "
+        "default stack from fixed and random documents, failed blocks built and produced by the splitter - against an "
+        "object with the very same attribute values of (a) a direct subclass that overrides nothing (built by the "
+        "constructor or by assigning __class__ to a copy; also one with the name of its base, one that adds a method), "
+        "(b) a subclass of that subclass, (c) sibling classes (two subclasses of one base; the library's own siblings, "
+        "sub- and superclasses), (d) unrelated classes with the same __dict__ (one with the same name), a namespace of "
+        "the public attributes, the attribute dict, None, repr, the class ..., (e) copy / deepcopy / rebuilt instances of "
+        "the class and of its subclasses; nested: an Entry one of whose fields is a SubField, a failed block around a "
+        "SubEntry; subclass twins differing in one attribute: == and != in both operand orders, inside lists / tuples / "
+        "dict values, in / index / count on lists at several positions, entry.fields, fields_dict views and dict "
+        "equality, library.blocks, the typed views and entries_dict / strings_dict views; expected equal exactly when "
+        "type(x) is type(y) and the public attributes agree (with the exact class of nested fields / blocks); "
+        "non-trivial = the property fixes the answer")
 TRUSTED = ["field identity is observed through unique start_line tags given to every Field the harness creates",
            "the several-entries streams have no counterpart in the Coq model (the model has no object identity across "
            "entries): they are judged by the Python oracle alone",
@@ -79,6 +94,11 @@ TRUSTED = ["field identity is observed through unique start_line tags given to e
            "the Coq model: Python oracle alone (reference dict per entry, results compared by identity); programs made of "
            "set_field of existing / new objects, renames and plain values are run a second time on fresh objects and "
            "compared with Model/EntryObj.v (op 25)",
+           "hier-* streams: subclasses, foreign objects and failed blocks are beyond the class tags of the executable equality "
+           "model: Python oracle alone; pairs of plain Entry / String / Preamble / comment / Field objects are compared with py_eq "
+           "(op 21) as well.  Failed blocks hold an exception object: with the very same exception object on both sides the "
+           "rule of the property is applied, otherwise (deep copies) only symmetry and `!=` = not `==` are required.  A Library "
+           "without an __eq__ of its own (identity) is held to the class half of the rule only",
            "values containing dicts or foreign objects are outside the executable equality model (skipped for the model "
            "comparison, still checked by the Python oracle)"]
 ASSUMPTIONS = ["str keys; CPython dict preserves insertion order (the reference mapping of the oracle is a dict)"]
@@ -224,6 +244,11 @@ def generate(rng, tier):
     #     copies of them, as the default of pop / get, the argument of set_field and the value of an item assignment
     from props import c19_ident
     cases += c19_ident.ident_cases(__import__("random").Random(rng.random()), tier, BIB)
+    # 12. equality across the class hierarchy: every public model class against trivial subclasses (direct, second level,
+    #     siblings, same name), the library's own sub- / super- / sibling classes, unrelated classes with the same __dict__,
+    #     same-class copies; both operand orders, == and !=, in / index / count, the views the library hands out
+    from props import c19_hier
+    cases += c19_hier.hier_cases(__import__("random").Random(rng.random()), tier, __import__("sys").modules[__name__])
     return cases
 
 
@@ -2097,6 +2122,9 @@ def obj_run(ents, objs, steps):
 
 
 def impl(case):
+    if "hier" in case["input"]:
+        from props import c19_hier
+        return c19_hier.impl_hier(case, __import__("sys").modules[__name__])
     if "ident" in case["input"]:
         from props import c19_ident
         return c19_ident.impl_ident(case)
